@@ -178,7 +178,8 @@ class VirtRig:
     """One execution of Lab.run_tasks on a configuration under a schedule."""
 
     HANG_POLLS = 6
-    WATCHDOG_S = 4.0
+    WATCHDOG_S = 4.0             # CPU seconds
+    WALL_BACKSTOP_S = 120.0
     hangs_seen = 0
 
     def __init__(self, cfg: dict, schedule: list, *, shape_seed: int = 0, beh: Optional[dict] = None,
@@ -552,8 +553,13 @@ class VirtRig:
                 # watchdog (the run normally takes milliseconds; the verdict is "hang", decided like any other hang)
                 def _alarm(signum, frame):
                     raise RigHang('no progress: run_tasks did not finish')
+                # The budget is CPU time of this process (ITIMER_PROF): a spinning coordinator burns it, a process that is
+                # merely starved by other work on the machine does not.  A generous wall-clock limit backs it up for a
+                # coordinator that blocks without consuming CPU.
                 old_alarm = signal.signal(signal.SIGALRM, _alarm)
-                signal.setitimer(signal.ITIMER_REAL, VirtRig.WATCHDOG_S)
+                old_prof = signal.signal(signal.SIGPROF, _alarm)
+                signal.setitimer(signal.ITIMER_PROF, VirtRig.WATCHDOG_S)
+                signal.setitimer(signal.ITIMER_REAL, VirtRig.WALL_BACKSTOP_S)
                 saved_tqdm = labtech.lab.tqdm
                 if self.progress:
                     labtech.lab.tqdm = _rec_tqdm(self)
@@ -572,8 +578,10 @@ class VirtRig:
                         res = lab.run_tasks(req, **kw)
                 finally:
                     labtech.lab.tqdm = saved_tqdm
+                    signal.setitimer(signal.ITIMER_PROF, 0)
                     signal.setitimer(signal.ITIMER_REAL, 0)
                     signal.signal(signal.SIGALRM, old_alarm)
+                    signal.signal(signal.SIGPROF, old_prof)
                     if tracer:
                         sys.settrace(None)
                 outcome = {'e': 'outcome', 'kind': 'return', 'exc': '', 'cause': '',
